@@ -46,7 +46,8 @@ def gen_history(r):
             prog.append(("null",))
             size += 1
         elif c < 48:
-            prog.append(("combine", r.below(size), r.below(size), r.choice(OPS)))
+            # (5th element: written as an augmented assignment, `acc = a; acc &= b` - which must build a new object too)
+            prog.append(("combine", r.below(size), r.below(size), r.choice(OPS), r.coin(30)))
             size += 1
         elif c < 60:
             prog.append(("combine_null", r.below(size), r.choice(["l", "r"]), r.choice(OPS)))
@@ -64,7 +65,16 @@ def gen_history(r):
     return kc, probes, prog
 
 
-def _combine(op, a, b):
+def _combine(op, a, b, aug=False):
+    if aug:
+        acc = a
+        if op == "and":
+            acc &= b
+        elif op == "or":
+            acc |= b
+        else:
+            acc ^= b
+        return acc
     if op == "and":
         return a & b
     if op == "or":
@@ -134,9 +144,12 @@ class Hist:
             elif step[0] == "null":
                 pool.append((Null(), ns.c.NullCondition()))
             elif step[0] == "combine":
-                _, a, b, op = step
+                _, a, b, op = step[:4]
+                aug = len(step) > 4 and step[4]
                 (ta, oa), (tb, ob) = pool[a], pool[b]
-                pool.append((Op(op, ta, tb), _combine(op, oa, ob)))
+                pool.append((Op(op, ta, tb), _combine(op, oa, ob, aug)))
+                if aug:
+                    self.out.label("augmented-assignment")
                 self.used_as_operand.update((a, b))
                 if (isinstance(simp(ta), Null) and is_comb(tb)) or (isinstance(simp(tb), Null) and is_comb(ta)):
                     self.null_with_comb = True
@@ -259,10 +272,10 @@ def machine_history(seed, n, record):
             self.h.step(("null",))
 
         @precondition(lambda self: self.h is not None and len(self.h.pool) >= 2)
-        @rule(a=idx, b=idx, op=ops)
-        def combine(self, a, b, op):
+        @rule(a=idx, b=idx, op=ops, aug=st.booleans())
+        def combine(self, a, b, op, aug):
             n = self.size()
-            self.h.step(("combine", a % n, b % n, op))
+            self.h.step(("combine", a % n, b % n, op, aug))
 
         @precondition(lambda self: self.h is not None and len(self.h.pool) >= 1)
         @rule(a=idx, s=side, op=ops)
